@@ -521,7 +521,9 @@ impl Ctx {
             let ci = *rng.pick(&[2usize, 4]);
             let positions: Vec<(&str, String, String)> = vec![
                 ("parens:closer-own-line", "x = (t)".into(), format!("x = ({}{}\n)", head, arms(2))),
-                ("parens:closer-own-line-deeper", "x = (t)".into(), format!("x = ({}{}\n    )", head, arms(2))),
+                // indentation 3: level with neither the arms (2) nor an arm's block body (4); a closer level
+                // with a block body is a line of that block
+                ("parens:closer-own-line-deeper", "x = (t)".into(), format!("x = ({}{}\n   )", head, arms(2))),
                 ("closer-after-last-arm:parens", "x = (t)".into(), format!("x = ({}{})", head, arms(2))),
                 ("list:own-lines", "x = [t]".into(), format!("x = [\n{}{}{}\n]", ind(ci), head, arms(ci + 2))),
                 ("list:second-element", "x = [7, t]".into(), format!("x = [\n{}7,\n{}{}{}\n]", ind(ci), ind(ci), head, arms(ci + 2))),
